@@ -8,6 +8,8 @@ HARNESS = {
     'pack': dict(cpp=['h/h_pack.cpp'], c=['adp/adp_pack.c'], repo=['librfn/pack.c']),
     'mqseq': dict(cpp=['h/h_mqseq.cpp'], c=['adp/adp_mq.c'], repo=['librfn/messageq.c']),
     'rotenc': dict(cpp=['h/h_rotenc.cpp'], c=['adp/adp_rotenc.c'], repo=['librfn/rotenc.c']),
+    'mlog': dict(cpp=['h/h_mlog.cpp'], c=['adp/adp_mlog.c'],
+                 repo=['librfn/mlog.c', 'librfn/string.c', 'librfn/util.c', 'librfn/posix/time_posix.c']),
     'list': dict(cpp=['h/h_list.cpp'], c=['adp/adp_list.c'], repo=['librfn/list.c']),
 }
 
@@ -54,6 +56,25 @@ PROPS = {
                  'product states (decoder x model)': 100000},
         assumptions=['clockwise is 00->01->11->10->00 as the transition table in rotenc.c documents',
                      '"never more than one click from the true position" is asserted only while no invalid two-bit jump has occurred since the last detent (invalid jumps can hide arbitrarily many quarter-steps from the detent latch)'],
+    ),
+    'C20': dict(
+        title='Memory log always holds the most recent 256 messages, oldest first',
+        rule='case = <=30 ops out of: mlog/mlog_nice with one of 12 literal formats (0-3 word-sized args, numbers and '
+             'constant strings), bursts of up to 600 messages (often landing around 256), mlog_clear, '
+             'mlog_get_line(k) for k in -3..300 / around the end / INT_MIN..INT_MAX extremes, mlog_dump, and (hook) '
+             'moving the internal counter to 1..600 below its 2^31 fold, congruent mod 256; optional final sweep '
+             'of lines -2..258 and the dump. Non-trivial: a read after >=257 messages or after the fold was crossed. '
+             'Distinct = distinct tapes. Thorough adds a hook-free run of 2^31+1000 real mlog calls.',
+        stages=[
+            dict(h='mlog', mode='rc', what='random histories', quick=dict(cases=50000, len=200),
+                 thorough=dict(cases=1000000, len=200)),
+            dict(h='mlog', mode='custom', what='hook-free 2^31+1000 messages', tiers=('thorough',), workers=1,
+                 thorough=dict(timeout=3000, watchdog=0)),
+        ],
+        require={'read-after-257-messages': 1000, 'read-across-the-2^31-fold': 500, 'nice-dropped': 100,
+                 'nice-recorded': 100, 'clear': 1000},
+        assumptions=['the harness formats the expected text with snprintf and the same literal format strings',
+                     'mlog_verif_set_count (hook) only moves the counter to a value congruent mod 256; the thorough tier crosses the fold without it'],
     ),
     'C12': dict(
         title='Pack/unpack never leaves the buffer, fails stickily, and uses fixed byte order',
